@@ -586,7 +586,7 @@ func main() {
 		}
 	}
 	// random + boundary (cases are independent: generated by a worker pool, emitted in order)
-	n := f.Count(300, 12000)
+	n := f.Count(300, 8000)
 	type res struct {
 		cfg Cfg
 		run *runner
